@@ -173,9 +173,8 @@ pub fn eval_pa(case: &PaCase, st: &mut Stats) -> Result<(), String> {
                 let r = crate::engine::lib(|| pa.init_from(&v));
                 ensure!(r.is_err(), "init_from() accepted a string with the symbol {} (step {})", v[s.len()], step);
                 st.class("pa_init_refused");
-                // what the object represents now is unspecified by the property; it only has to be a valid object,
-                // and every later initialisation has to behave as on a fresh one
-                ensure!(must("is_valid", || pa.is_valid())?, "a refused init_from() left an invalid position array behind (step {})", step);
+                // what the object represents now is not specified by this property (C11 judges its validity);
+                // every later initialisation has to behave as on a fresh object
                 continue;
             }
         }
